@@ -25,7 +25,7 @@ C11_OthersUndisturbed(r) == \A k \in 1..Len(r.obs.others) :
 
 (***************************************************************************)
 (* C18 - remote contexts: unique per id, supply the work, clean up          *)
-(*   scn.hist  sequence of requests [op, id, tok, w]:                       *)
+(*   scn.hist  sequence of requests [op, id, tok, w, x, k]:                 *)
 (*      "create" id tok   register context id whose default is tok           *)
 (*      "delete" id       delete context id                                  *)
 (*      "start"  id w     start worker w in context id                       *)
@@ -36,9 +36,9 @@ C11_OthersUndisturbed(r) == \A k \in 1..Len(r.obs.others) :
 (*      start: "started" | "nostart" (server gave no worker) ;               *)
 (*      call: "v:<n>" | "dead" ;  wait: "T"/"F"                              *)
 (*      anything else ("hang", "raised:X") is an observation too             *)
-(*   obs.ended[k]  for delete requests: "T" iff every worker that was        *)
-(*      started in that registration and not yet waited for is dead (API     *)
-(*      and OS) shortly after the reply; "T" for other requests              *)
+(*   obs.live[k]  for delete requests: the workers (indices) that are still  *)
+(*      alive - by the parent-side API or by the OS - shortly after the      *)
+(*      reply; <<>> for other requests                                       *)
 (*   obs.srv_alive, obs.fresh as for C11 (taken at the end of the history)   *)
 (* The dictionary model: Dict maps id -> tok of the registration in force.  *)
 (***************************************************************************)
@@ -103,14 +103,21 @@ C18_FirstIntact(r) == \A n \in ReqsOf(r, {"call"}) :
 \* workers created with a context id execute the context's target with the context's defaults
 C18_WorkersRunCtxTarget(r) == \A n \in ReqsOf(r, {"call", "wait"}) :
                                  ~WorkerEnded(r.scn.hist, n - 1, r.scn.hist[n].w) => r.obs.rep[n] = Expected(r.scn.hist, n)
-\* deleting the context ends its workers
-C18_DeleteEndsWorkers(r) == \A n \in ReqsOf(r, {"delete"}) : r.obs.ended[n] = "T"
+\* deleting the context ends its workers: none of the workers started in the registration being deleted
+\* is alive (API or OS) shortly after the reply  (obs.live[n] = workers found alive after request n)
+C18_DeleteEndsWorkers(r) == \A n \in ReqsOf(r, {"delete"}) :
+                               LET h == r.scn.hist  i == h[n].id  t == DictAfter(h, n - 1)[i] IN
+                               \A k \in 1..Len(r.obs.live[n]) :
+                                  LET w == r.obs.live[n][k] IN
+                                  ~(t # NoTok /\ WorkerCtx(h, n - 1, w) = i /\ WorkerTok(h, n - 1, w) = t)
 \* after which the id can be registered again
 C18_Reusable(r) == \A n \in ReqsOf(r, {"create"}) :
                       DictAfter(r.scn.hist, n - 1)[r.scn.hist[n].id] = NoTok => r.obs.rep[n] = "ok"
 \* requests that name an unknown context never crash the server (and it keeps serving)
-C18_UnknownHarmless(r) == /\ r.obs.srv_alive = "T"
-                          /\ \A k \in 1..Len(r.obs.fresh) : r.obs.fresh[k].got = r.obs.fresh[k].want
+NamesUnknown(r) == \E n \in ReqsOf(r, {"start", "delete"}) : DictAfter(r.scn.hist, n - 1)[r.scn.hist[n].id] = NoTok
+C18_UnknownHarmless(r) == NamesUnknown(r) =>
+                             /\ r.obs.srv_alive = "T"
+                             /\ \A k \in 1..Len(r.obs.fresh) : r.obs.fresh[k].got = r.obs.fresh[k].want
 
 (***************************************************************************)
 (* C12 - stopping the server reaps its children and every parent finds out *)
